@@ -1,5 +1,79 @@
-import Uquic.Model.Ack.Sent
+/-
+Property C06 — loss recovery resolves every frame exactly once; accounts balanced.
+Theorems over the model `Uquic.Model.Sent` (internal/ackhandler sent-packet handler).
+-/
+import Uquic.Proofs.SentLedger
+
 namespace Uquic.Props.C06
-open Uquic.Model.Sent
-theorem placeholder : (1 : Nat) = 1 := rfl
+open Uquic.Model.Sent Uquic.Proofs.Sent List
+
+/-- all frames handed to `SentPacket` during a history -/
+def handedAll (ops : List (Op × StepEnv)) : List Frame := ops.flatMap fun x => handed x.1
+
+/-- **ledger** (invariant form): for every history of operations with arbitrary environment inputs, as long
+    as no operation panics,  tracked-before ⊎ handed  =  tracked-after ⊎ reported ⊎ discarded  as multisets. -/
+theorem ledger_run (ops : List (Op × StepEnv)) : ∀ (s : State), DummyOK s → (s.run ops).ok = true →
+    (pending s ++ handedAll ops ~ pending (s.run ops).s ++ evFrames (s.run ops).evs ++ (s.run ops).disc) ∧
+      DummyOK (s.run ops).s := by
+  induction ops with
+  | nil => intro s d _; simp [State.run, handedAll]; exact d
+  | cons x xs ih =>
+    intro s d hok
+    obtain ⟨op, e⟩ := x
+    simp only [State.run] at hok ⊢
+    by_cases hp : (s.step op e).2.res.isPanic = true
+    · simp [hp] at hok
+    · have hp' : (s.step op e).2.res.isPanic = false := by simpa using hp
+      simp only [hp', Bool.false_eq_true, if_false] at hok ⊢
+      obtain ⟨s1, s2⟩ := step_ledger d hp'
+      obtain ⟨i1, i2⟩ := ih _ s2 hok
+      refine ⟨?_, i2⟩
+      simp only [handedAll, List.flatMap_cons, evFrames_append] at i1 ⊢
+      perm_solve [s1, i1]
+
+theorem new_pending (pn : PN) (val client : Bool) (nts : PN) : pending (State.new pn val client nts) = [] := by
+  simp [State.new, pending, spacePending, Space.new, Hist.pending]
+
+theorem new_DummyOK (pn : PN) (val client : Bool) (nts : PN) : DummyOK (State.new pn val client nts) := by
+  refine ⟨?_, ?_, ?_⟩ <;> intro p hp <;> simp [State.new, Space.new] at hp
+
+/-- **ledger**: from a fresh handler, after any history without a panic, the frames handed over are exactly
+    the frames still tracked, plus those reported (acked or lost), plus those discarded — as multisets. -/
+theorem ledger (pn : PN) (val client : Bool) (nts : PN) (ops : List (Op × StepEnv))
+    (hok : ((State.new pn val client nts).run ops).ok = true) :
+    handedAll ops ~ pending ((State.new pn val client nts).run ops).s ++
+      evFrames ((State.new pn val client nts).run ops).evs ++ ((State.new pn val client nts).run ops).disc := by
+  have := (ledger_run ops _ (new_DummyOK pn val client nts) hok).1
+  rw [new_pending] at this
+  simpa using this
+
+/-- each frame is reported at most once, and a reported frame is neither tracked any more nor discarded -/
+theorem reported_at_most_once (pn : PN) (val client : Bool) (nts : PN) (ops : List (Op × StepEnv))
+    (hok : ((State.new pn val client nts).run ops).ok = true) (hnd : (handedAll ops).Nodup) :
+    (evFrames ((State.new pn val client nts).run ops).evs).Nodup ∧
+    ∀ f ∈ evFrames ((State.new pn val client nts).run ops).evs,
+      f ∉ pending ((State.new pn val client nts).run ops).s ∧ f ∉ ((State.new pn val client nts).run ops).disc := by
+  have h := ledger pn val client nts ops hok
+  have nd := (h.nodup_iff).mp hnd
+  rw [List.nodup_append] at nd
+  obtain ⟨nd1, nd2, nd3⟩ := nd
+  rw [List.nodup_append] at nd1
+  obtain ⟨_, nd5, nd6⟩ := nd1
+  refine ⟨nd5, ?_⟩
+  intro f hf
+  constructor
+  · intro hp; exact nd6 f hp f hf rfl
+  · intro hd; exact nd3 f (List.mem_append_right _ hf) f hd rfl
+
+/-- a frame handed over that is neither tracked any more nor discarded (with its packet number space, by
+    0-RTT rejection, or as a path probe dropped at migration) has been reported exactly once -/
+theorem resolved_exactly_once (pn : PN) (val client : Bool) (nts : PN) (ops : List (Op × StepEnv))
+    (hok : ((State.new pn val client nts).run ops).ok = true) (f : Frame)
+    (hp : f ∉ pending ((State.new pn val client nts).run ops).s) (hd : f ∉ ((State.new pn val client nts).run ops).disc) :
+    (evFrames ((State.new pn val client nts).run ops).evs).count f = (handedAll ops).count f := by
+  have h := (ledger pn val client nts ops hok).count_eq f
+  simp only [List.count_append] at h
+  rw [List.count_eq_zero_of_not_mem hp, List.count_eq_zero_of_not_mem hd] at h
+  omega
+
 end Uquic.Props.C06
